@@ -1,6 +1,7 @@
 /-
   Property C05 — score-ballot elections enforce their limits and elect the top m totals.
 -/
+import VK.Props.C04Top
 import VK.Model.Rules
 import VK.Lemmas.Sum
 
